@@ -1,11 +1,14 @@
 (* C01 — MemMapFs behaves like a POSIX filesystem on well-formed call sequences.
    Statements only; proofs in Proofs/MemFs*.v.  The hypothesis `wf_seq m_init ops = true`
-   (Model/WfOps.v) is computable: every call satisfies the ordinary POSIX preconditions in the
-   state reached so far. *)
+   (Model/WfOps.v) is computable: every call is portable in the state reached so far —
+   wf_op = wf_op_ord || wf_below: it satisfies the ordinary POSIX preconditions (wf_op_ord: the
+   call is carried out), or it is a creating call whose name passes through a regular file
+   (wf_below: Create, Mkdir, MkdirAll, OpenFile with O_CREATE, Rename onto such a name; the call
+   is refused with ENOTDIR by MemMapFs and by the operating system alike, theorem 8). *)
 From AF Require Import Proofs.MemFileProof.
 From AF Require Import Lib.Bytes Lib.Path Lib.Ops Gen.Consts Model.MemFile Model.MemFs Model.WfOps Model.Posix
   Proofs.MemFsPath Proofs.MemFsBasics Proofs.MemFsWF Proofs.MemFsStep Proofs.MemFsRename Proofs.MemFsInv
-  Proofs.MemFsNoop Proofs.MemFsList Proofs.MemFsSim Proofs.MemFsSimInv Proofs.MemBelow Proofs.MemBelowRefused.
+  Proofs.MemFsNoop Proofs.MemFsList Proofs.MemFsSim Proofs.MemFsSimInv Proofs.MemBelow Proofs.MemBelowRefused Proofs.MemFsBelow.
 Local Open Scope Z_scope.
 
 (* 1. The per-directory child index mirrors the path map after every well-formed sequence
@@ -31,7 +34,7 @@ Print Assumptions C01_WF_meaning.
 
 (* 2. A failed call changes nothing: the path map and every node (names, kinds, contents, modes,
       times, child indexes) are exactly what they were.  Covers every call that returns an error:
-      EEXIST / ENOENT of the path calls, and the handle calls on closed or read-only handles,
+      EEXIST / ENOENT / ENOTDIR of the path calls, and the handle calls on closed or read-only handles,
       negative offsets, out-of-range truncation (and would-be panics). *)
 Theorem C01_failed_call_is_noop : forall s o, WF s -> wf_op s o = true ->
   res_is_err (snd (m_step s o)) = true -> fs_view (fst (m_step s o)) = fs_view s.
@@ -80,14 +83,15 @@ Proof. exact readdir_pages. Qed.
 Print Assumptions C01_readdir_pages_prefix.
 
 (* 4. Rename moves the subtree with contents intact.  For a successful Rename (source exists,
-      differs from the target) and every suffix rest = "" or "/…": the name new++rest denotes
+      differs from the target, and the target does not pass through a regular file — otherwise the
+      call is in the class too, but refused: theorem 8) and every suffix rest = "" or "/…": the name new++rest denotes
       afterwards exactly what old++rest denoted before (kind, contents, mode, mtime — or nothing),
       the names at or below old are gone, and every name outside both subtrees is unchanged.
       (entry_at, atbelow, suffix_ok: Proofs/MemFsRename.v) *)
 Theorem C01_rename_moves_subtree : forall s p q,
   WF s -> wf_op s (Rename p q) = true ->
   let old := normalize_path p in let new := normalize_path q in
-  lookup s old <> None -> old <> new ->
+  lookup s old <> None -> old <> new -> through_file s new = false ->
   let s' := fst (m_step s (Rename p q)) in
   snd (m_step s (Rename p q)) = ROk /\ WF s' /\
   (forall rest, suffix_ok rest -> entry_at s' (new ++ rest) = entry_at s (old ++ rest)) /\
@@ -98,7 +102,9 @@ Print Assumptions C01_rename_moves_subtree.
 
 (* 5. POSIX specification and simulation.  Model/Posix.v is an independent specification: a flat
       tree (clean absolute path -> inode), an inode table (IDir perm | IFile bytes perm), handles
-      bound to inodes with a byte offset and a directory offset; Mkdir needs an existing parent
+      bound to inodes with a byte offset and a directory offset; every call that takes a name resolves
+      it first (a name that passes through a regular file: ENOTDIR, nothing changes; Rename resolves
+      the directory of the source, then that of the target, then looks for the source); Mkdir needs an existing parent
       directory, MkdirAll creates the missing ancestors, Remove refuses non-empty directories,
       RemoveAll drops every name at or below, Rename rewrites the prefix of every name at or below
       the source, listings are the sorted base names of the names with that parent, byte I/O is the
@@ -106,7 +112,7 @@ Print Assumptions C01_rename_moves_subtree.
       the preconditions (wf_seq_sim: wf_op, plus byte I/O only through handles on regular files and
       directory reading only through handles on directories that still have a name):
         - every call has the same projected outcome in both machines (mproj: success / not-exist /
-          already-exists / closed / other, the handle number, the bytes read and the EOF flag, the
+          already-exists / closed / not-a-directory / other, the handle number, the bytes read and the EOF flag, the
           count written, the new offset, kind and size of Stat, the names of a directory page), and
         - the final states expose the same tree: for every path the same kind and contents and the
           permission bits wherever they were set explicitly, and for every directory the same listing.
@@ -180,6 +186,40 @@ Proof.
 Qed.
 Print Assumptions C01_wellformed_never_below_file.
 
+(* 8. The portable class includes creating below a regular file.  wf_op = wf_op_ord || wf_below
+      (by definition); in a state satisfying the invariant the two halves are disjoint, so the
+      ordinary half is exactly the class theorems 1-6 were about before; a name that passes through
+      a regular file (through_file: some proper ancestor is a regular file) is free and the first
+      existing name on the way up is that file (the hypothesis of theorem 7); and on every call of
+      the second half MemMapFs and the POSIX specification agree: ENOTDIR, and neither state
+      changes (MemMapFs: only the clock moves).  These calls satisfy the precondition of the
+      simulation theorem (wf_op_sim), so C01_simulation covers programs that mix them with
+      ordinary calls (C01_ex_mixed below). *)
+Theorem C01_portable_class : forall s o, wf_op s o = wf_op_ord s o || wf_below s o.
+Proof. reflexivity. Qed.
+Print Assumptions C01_portable_class.
+
+Theorem C01_class_halves_disjoint : forall s o, WF s -> wf_op_ord s o = true -> wf_below s o = false.
+Proof. exact wf_ord_not_below. Qed.
+Print Assumptions C01_class_halves_disjoint.
+
+Theorem C01_through_file_meaning : forall s k, WF s -> canon k -> through_file s k = true ->
+  lookup s k = None /\ nearest_is_file s (path_dir k).
+Proof. intros s k W Hc Ht. exact (through_file_nearest s W k Hc Ht). Qed.
+Print Assumptions C01_through_file_meaning.
+
+Theorem C01_below_file_agrees : forall s t o, Rsim s t -> wf_below s o = true ->
+  m_step s o = (ticked s, RErr (EW KENOTDIR)) /\
+  p_step t o = (t, PFail CNotDir) /\
+  mproj o (snd (m_step s o)) = snd (p_step t o) /\
+  wf_op_sim s o = true.
+Proof.
+  intros s t o R Hb. pose proof (below_step_ticked s o (rs_wf _ _ R) Hb) as Em. pose proof (below_spec_step s t o R Hb) as Ep.
+  split; [exact Em|]. split; [exact Ep|]. split; [now rewrite Em, Ep|].
+  unfold wf_op_sim. rewrite (wf_op_of_below s o Hb). pose proof (wf_below_creating s o Hb) as Hc. destruct o; try contradiction; reflexivity.
+Qed.
+Print Assumptions C01_below_file_agrees.
+
 (* ---------- non-vacuity ---------- *)
 Local Open Scope N_scope.
 Definition c01_demo : list op :=
@@ -203,8 +243,13 @@ Proof. vm_compute. reflexivity. Qed.
 (* the precondition rejects what POSIX rejects *)
 Example C01_ex_rejects :
   wf_seq m_init [Mkdir [47;97] 493; Rename [47;97] [47;97;47;98]] = false /\
-  wf_seq m_init [Create [47;102]; Mkdir [47;102;47;100] 493] = false /\
+  wf_seq m_init [Create [47;102]; Stat [47;102;47;100]] = false /\                 (* the OS: ENOTDIR, MemMapFs: not-exist *)
   wf_seq m_init [MkdirAll [47;97;47;98] 493; Remove [47;97]] = false.
+Proof. vm_compute. auto. Qed.
+(* ... and accepts a creating call below a regular file: both sides refuse it with ENOTDIR *)
+Example C01_ex_accepts_below :
+  wf_seq m_init [Create [47;102]; Mkdir [47;102;47;100] 493] = true /\
+  wf_below (fst (m_step m_init (Create [47;102]))) (Mkdir [47;102;47;100] 493) = true.
 Proof. vm_compute. auto. Qed.
 
 (* failing calls in the demo state: each returns an error and leaves the snapshot unchanged *)
@@ -261,6 +306,64 @@ Proof.
   split; [apply nif_up; [vm_compute; reflexivity|]; eapply nif_here; vm_compute; reflexivity|].
   vm_compute. reflexivity.
 Qed.
+
+(* a program that mixes ordinary calls with creating calls below the regular file /d/f (content "hi"),
+   run through MemMapFs and through the POSIX specification: it is inside the precondition of
+   C01_simulation, steps 3-6, 8 and 9 are in the second half of the class, both machines answer
+   ENOTDIR there — directly below the file, two levels below it, Rename of a file into it, Rename of
+   the directory /d into its own subtree through the file — and afterwards /d/f still holds "hi",
+   /g moved to /d/h and /d lists f and h *)
+Definition c01_demo5 : list op :=
+  [ Mkdir [47;100] 493%Z;                                            (*  0  /d *)
+    Create [47;100;47;102];                                          (*  1  /d/f, handle 0 *)
+    HWrite 0 [104;105];                                              (*  2  "hi" *)
+    Create [47;100;47;102;47;120];                                   (*  3  /d/f/x *)
+    Mkdir [47;100;47;102;47;120] 493%Z;                              (*  4  /d/f/x *)
+    MkdirAll [47;100;47;102;47;120;47;121] 493%Z;                    (*  5  /d/f/x/y *)
+    OpenFile [47;100;47;102;47;120;47;121] (Z.lor o_create o_rdwr) 420%Z;   (*  6  /d/f/x/y *)
+    Create [47;103];                                                 (*  7  /g, handle 1 *)
+    Rename [47;103] [47;100;47;102;47;122];                          (*  8  /g -> /d/f/z *)
+    Rename [47;100] [47;100;47;102;47;120;47;100];                   (*  9  /d -> /d/f/x/d *)
+    Rename [47;103] [47;100;47;104];                                 (* 10  /g -> /d/h *)
+    HSeek 0 0%Z 0%Z; HRead 0 10%Z;                                   (* 11, 12 *)
+    Stat [47;100;47;102];                                            (* 13 *)
+    Open [47;100]; HReaddirnames 2 (-1)%Z ].                         (* 14, 15 *)
+Example C01_ex_mixed :
+  wf_seq_sim m_init c01_demo5 = true /\
+  map (fun i => wf_below (fst (run_steps m_step m_init (firstn i c01_demo5))) (nth i c01_demo5 (HSync 0)))
+      [3; 4; 5; 6; 8; 9]%nat = repeat true 6 /\
+  mproj_all c01_demo5 (snd (run_steps m_step m_init c01_demo5)) = snd (p_run p_init c01_demo5) /\
+  snd (p_run p_init c01_demo5) =
+  [ PSucc; PHandle 0; PNum 2; PFail CNotDir; PFail CNotDir; PFail CNotDir; PFail CNotDir; PHandle 1;
+    PFail CNotDir; PFail CNotDir; PSucc; PNum 0; PData [104;105] false; PStat false (Some 2%nat);
+    PHandle 2; PNames [[102];[104]] false ].
+Proof. vm_compute. auto. Qed.
+
+(* Rename of a MISSING source whose directory exists onto a name below a regular file: rename(2)
+   resolves both directories before it looks for the source and answers ENOTDIR; so does MemMapFs
+   (switch memfs_rename_missing_source_enotdir = 1, read from the source of Rename; before that repair
+   — finding F4 — it answered not-exist).  The call is in the ordinary half of the class. *)
+Theorem C01_rename_missing_switch : memfs_rename_missing_source_enotdir = 1%Z.
+Proof. exact memfs_rename_missing_source_enotdir_fact. Qed.
+Print Assumptions C01_rename_missing_switch.
+
+Theorem C01_rename_missing_source : forall s p q, WF s -> wf_op_ord s (Rename p q) = true ->
+  lookup s (normalize_path p) = None ->
+  m_step s (Rename p q) =
+    (ticked s, RErr (EW (if is_dir_at s (par (normalize_path p)) && through_file s (normalize_path q) then KENOTDIR else KNotExist))).
+Proof.
+  intros s p q W Hwf Hl. cbn [wf_op_ord] in Hwf. apply andb_true_iff in Hwf as [Hn _]. apply andb_true_iff in Hn as [Hn _].
+  apply andb_true_iff in Hn as [Hnp Hnq]. unfold m_step. cbn [m_step_raw].
+  now rewrite (m_rename_missing s p q W (canon_normalize p Hnp) (canon_normalize q Hnq) Hl).
+Qed.
+Print Assumptions C01_rename_missing_source.
+
+Example C01_ex_F4 :
+  let s := fst (m_step m_init (Create [47;102])) in let t := fst (p_step p_init (Create [47;102])) in
+  let o := Rename [47;122] [47;102;47;120] in let o2 := Rename [47;122;47;121] [47;102;47;120] in
+  wf_op_ord s o = true /\ mproj o (snd (m_step s o)) = PFail CNotDir /\ snd (p_step t o) = PFail CNotDir /\
+  wf_op_ord s o2 = true /\ mproj o2 (snd (m_step s o2)) = PFail CNotExist /\ snd (p_step t o2) = PFail CNotExist.
+Proof. vm_compute. auto 10. Qed.
 
 Example C01_ex_spelling : same_names (Mkdir [47;47;120;47] 448%Z) (Mkdir [47;120] 448%Z) /\
   same_names (Rename [47;97;47;46;47;98] [47;120;47;46;46;47;121]) (Rename [47;97;47;98] [47;121]).
